@@ -105,7 +105,7 @@ func body() {
 	raceReports()
 
 	// per-monitor floors: every enabled monitor must have observed its share
-	if r.ReplayCase() == "" {
+	if r.ReplayCase() == "" && r.Violations() == 0 {
 		type fl struct {
 			m, counter string
 			q, t       int
